@@ -2,6 +2,8 @@
 From Coq Require Import String Ascii List Bool Arith NArith ZArith.
 From KV Require Import Lib.Str Lib.ByteSeq Gen.CxxConn Gen.ProtoTmpl Model.Conn Model.Proto
                        Proofs.ByteSeqProofs Proofs.ConnProofs Proofs.ProtoProofs.
+(* not used by the statements below: extracted into build/kmodel together with the models of this closure (see Props/C14.v) *)
+From KV Require Spec.StreamParse.
 Import ListNotations.
 Open Scope N_scope.
 Open Scope list_scope.
